@@ -318,7 +318,7 @@ def valid_payload_for(rng, const, mtype, sub):
     return rng.choice(_SCHEMAS[key])
 
 
-def gen_history(rng, version, n, persist=False, ota=True, sleep=True, malformed=0.25):
+def gen_history(rng, version, n, persist=False, ota=True, sleep=True, malformed=0.25, bias=None):
     """A mostly-valid, state-aware history of n ops."""
     const = const_for(version)
     mt = const.MessageType
@@ -350,8 +350,11 @@ def gen_history(rng, version, n, persist=False, ota=True, sleep=True, malformed=
         kind = rng.choices(
             ["pres_node", "pres_child", "set", "req", "idreq", "internal", "wake", "ctl_set", "update",
              "stream", "clock", "metric", "save", "restart"],
-            weights=[8, 12, 18, 8, 4, 10, 10 if (v2 and sleep) else 0, 12, 5 if ota else 0, 8 if ota else 0,
-                     2, 1, 4 if persist else 0, 2 if persist else 0])[0]
+            weights=[w * (bias or {}).get(k, 1) for k, w in zip(
+                ["pres_node", "pres_child", "set", "req", "idreq", "internal", "wake", "ctl_set", "update",
+                 "stream", "clock", "metric", "save", "restart"],
+                [8, 12, 18, 8, 4, 10, 10 if (v2 and sleep) else 0, 12, 5 if ota else 0, 8 if ota else 0,
+                 2, 1, 4 if persist else 0, 2 if persist else 0])])[0]
         if kind == "pres_node":
             node = rng.choice(node_pool)
             typ = rng.choice([const.Presentation.S_ARDUINO_NODE, const.Presentation.S_ARDUINO_RELAY])
